@@ -72,3 +72,31 @@ func (v *FnVC) checkMapGuards(i *ssa.MapUpdate, m, k Term) {
 	}
 }
 
+
+// checkLoadGuards: assert-load clauses at every load through a pointer to a struct field of the given name.
+func (v *FnVC) checkLoadGuards(i *ssa.UnOp) {
+	if v.C == nil || len(v.C.LoadAsserts) == 0 {
+		return
+	}
+	fa, ok := i.X.(*ssa.FieldAddr)
+	if !ok {
+		return
+	}
+	st, ok := structOf(deref(fa.X.Type()))
+	if !ok {
+		return
+	}
+	field := st.Field(fa.Field).Name()
+	for _, ua := range v.C.LoadAsserts {
+		if ua.Callee != field {
+			continue
+		}
+		env := v.baseEnv()
+		env.cur = true
+		blk, cst := v.curBlock, v.cur
+		env.lookup = func(n string) (Term, bool) { return v.localByNameAt(n, blk, i, cst) }
+		env.vars["$obj"] = v.val(fa.X)
+		f := v.evalBool(ua.C.E, env)
+		v.oblige("assert-load:"+field, f, fmt.Sprintf("at every read of field .%s: %s", field, ua.C.Text), i.Pos())
+	}
+}
